@@ -3,7 +3,9 @@
    modules, every valid tree over the value classes (all of them for one-item schemas,
    two per type in combinations; RandPer seeded random trees instead when the schema
    has more than ExhMax items) and, for the full trees of schemas with at most MutMax
-   items, every single-point mutant of the three encodings as a token sequence.
+   items, every single-point mutant of the three encodings as a token sequence (RFC 7951: of every
+   full tree for the items up to SizedFullMax; otherwise of the largest full tree), and for the largest
+   full tree the documents with a value / content of the wrong shape at every position (ShapeLines).
    Fuzz = TRUE additionally writes the alphabets, contexts and seed trees of the
    decoders' totality runs.  What the code must do with each of them is decided by
    EncodingTrace from the recorded outcome.  One initial state per schema.          *)
@@ -41,13 +43,14 @@ MutLines(S) ==
   IF Cardinality(S) > MutMax THEN << >>
   ELSE LET sn == Schema(S) IN
        SetToSeq(UNION {
-          {[kind |-> "mut", enc |-> "rfc", toks |-> m, xtoks |-> << >>] : m \in JMutants(EncJ(TRUE, sn, t))}
+          (IF MutAll \/ t = BigTree(S) \/ \A i \in S : i <= SizedFullMax
+           THEN {[kind |-> "mut", enc |-> "rfc", toks |-> m, xtoks |-> << >>] : m \in JMutants(EncJ(TRUE, sn, t))} ELSE {})
           \cup (IF MutAll \/ t = BigTree(S)
                 THEN {[kind |-> "mut", enc |-> "json", toks |-> m, xtoks |-> << >>] : m \in JMutants(EncJ(FALSE, sn, t))}
                      \cup {[kind |-> "mut", enc |-> "xml", toks |-> << >>, xtoks |-> m] : m \in XMutants(EncX(sn, t))}
                 ELSE {})
           : t \in FullTrees(S)}
-          \cup (IF FullTrees(S) = {} THEN {}
+          \cup (IF FullTrees(S) = {} \/ ~NsGrid(S) THEN {}
                 ELSE {[kind |-> "mut", enc |-> "xml", toks |-> << >>, xtoks |-> m] : m \in XNsMutants(EncX(sn, BigTree(S)))}))
 \* values / content of the wrong shape at every position of the three encodings of the largest full tree
 ShapeLines(S) ==
